@@ -436,9 +436,18 @@ def conditions(tier: str, seed: int) -> typing.List[Cond]:
     pairs = _pair_trees()
     if not thorough:
         # every (op1, op2) combination is kept, one of the two shapes chosen by the seed
+        # (both shapes are kept where they are what tells grouping apart: operators of one precedence level, and
+        # the cheap all-boolean trees)
         keep = []
         for i in range(0, len(pairs) - 12, 2):
-            keep.append(pairs[i + rnd.randrange(2)])
+            t0 = pairs[i][0]
+            inner = t0[2][1] if t0[2][0] == "bin" else t0[3][1]
+            same_level = X.LEVEL.get(t0[1]) == X.LEVEL.get(inner)
+            all_bool = all(v == "bool" for v in pairs[i][1].values())
+            if same_level or all_bool:
+                keep += [pairs[i], pairs[i + 1]]
+            else:
+                keep.append(pairs[i + rnd.randrange(2)])
         pairs = keep + pairs[-12:]
     for tree, types in pairs:
         add_tree("c04.pair", tree, types)
